@@ -188,6 +188,47 @@ theorem bare_not_reserved (s : Bytes) (n : Nat) (h0 : 0 ∉ s) (hne : s ≠ [])
 example : (quoteIdent [117, 115, 101, 114, 115] 10).1 = true ∧
     cstr (quoteIdent [117, 115, 101, 114, 115] 10).2.buf = [117, 115, 101, 114, 115] := by decide
 
+/-- the per-byte table of the unquoted path, in plain numbers: an identifier that comes out
+    without quotes consists only of `a-z`, `0-9`, `_` (so in particular no backtick 0x60, no
+    upper-case letter, no `$`, no high-bit byte) and starts with `a-z` or `_` -/
+theorem bare_charset (s : Bytes) (n : Nat) (h0 : 0 ∉ s) (hne : s ≠ [])
+    (hok : (quoteIdent s n).1 = true)
+    (hbare : (cstr (quoteIdent s n).2.buf).head? ≠ some cDQ) :
+    (∀ c ∈ s, (97 ≤ c ∧ c ≤ 122) ∨ c = 95 ∨ (48 ≤ c ∧ c ≤ 57)) ∧
+    (∀ c, s.head? = some c → (97 ≤ c ∧ c ≤ 122) ∨ c = 95) := by
+  obtain ⟨_, _, hb⟩ := quoteIdentAt_spec [] 0 n n rfl (by omega) s (Dst.new n) (Good.new n)
+  obtain ⟨T, hT⟩ := hb hok
+  have hT' : (quoteIdent s n).2.buf = identText s ++ 0 :: T := by simpa [quoteIdent] using hT
+  have hc := cstr_of_prefix _ _ T hT' (identText_no_nul s h0)
+  rw [hc] at hbare
+  have hbo : bareOk s = true := by
+    apply Classical.byContradiction
+    intro h
+    have : bareOk s = false := by simpa using h
+    rw [identText_quoted s this] at hbare
+    simp at hbare
+  simp only [bareOk, Bool.decide_and, Bool.decide_eq_true, Bool.and_eq_true, Bool.not_eq_eq_eq_not,
+    Bool.not_true] at hbo
+  obtain ⟨hst, hall, _⟩ := hbo
+  constructor
+  · intro c hc
+    have := List.all_eq_true.mp hall c hc
+    simp only [idBody, idStart, Bool.or_eq_true, Bool.and_eq_true, decide_eq_true_eq] at this
+    omega
+  · intro c hc
+    cases s with
+    | nil => simp at hc
+    | cons x r =>
+      simp only [List.head?_cons, Option.some.injEq] at hc
+      subst hc
+      have hx : idStart x = true := by simpa using hst
+      simp only [idStart, Bool.or_eq_true, Bool.and_eq_true, decide_eq_true_eq] at hx
+      omega
+
+example : (quoteIdent [97, 96, 98] 10).1 = true ∧
+    cstr (quoteIdent [97, 96, 98] 10).2.buf = [34, 97, 96, 98, 34] ∧
+    cstr (quoteIdent [97, 95, 57] 10).2.buf = [97, 95, 57] := by decide
+
 /-- QUALIFIED NAME: if `pg_quote_fqident` returns true, the output is `identifier . identifier`
     decoding to (schema, name) — split at the first dot, schema `public` when there is none —
     for inputs whose two parts are non-empty -/
